@@ -10,3 +10,49 @@ ASSUMPTIONS = vh_c02.ASSUMPTIONS[:4] + [
 SPLIT = {"par2": [("_none", "not fa and not fb"), ("_a", "fa and not fb")],
          "map_items": [("_ok", "failing == -1")]}
 scn.register(globals(), {"C11", "C09"}, ["seq_chain", "seq_misc", "two_execs", "start_routes", "par2", "par_pass_task", "map_items"], SPLIT)
+
+
+# ---------------------------------------------------------------------------
+# One-step kernel (Engine A): broadcast_notification
+# ---------------------------------------------------------------------------
+from vf.api import condition
+from vf import stubs
+from vf.stubs import pick
+
+SECONDS = [1_700_000_000.0, 1_700_000_000.25, 0.5, 1e-3, 12345.678]
+
+
+@condition(timeout={"quick": 120, "thorough": 300}, functions=["StateEngine.broadcast_notification (ms conversion, record restored, subject, envelope, account/region)"])
+def notification_kernel(si: int, ti: int, has_stop: int, status: int, whole: int, ri: int) -> bool:
+    """
+    requires: 0 <= si < 5 and 0 <= ti < 5 and 0 <= has_stop < 3 and 0 <= status < 3 and 0 <= whole < 3 and 0 <= ri < 2
+    ensures: _
+    """
+    eng, log = stubs.make_engine({"StartAt": "P", "States": {"P": {"Type": "Succeed"}}})
+    region = pick(["local", "eu-west-1"], ri)
+    sm = "arn:aws:states:%s:0123456789:stateMachine:m" % region
+    ex = "arn:aws:states:%s:0123456789:execution:m:e1" % region
+    whole = pick([0, 1, 86400], whole)               # floats stay concrete (CrossHair's real-valued floats cannot close)
+    start = pick(SECONDS, si) + whole
+    stop = pick([None, 0, "x"], has_stop)
+    if stop == "x":
+        stop = pick(SECONDS, ti) + whole
+    st = pick(["RUNNING", "SUCCEEDED", "FAILED"], status)
+    detail = {"executionArn": ex, "input": "{}", "name": "e1", "output": None, "startDate": start, "stateMachineArn": sm, "status": st, "stopDate": stop}
+    before = dict(detail)
+    eng.broadcast_notification(ex, detail, {"Tracer": {}})
+    bcs = [l for l in log if l[0] == "broadcast"]
+    if len(bcs) != 1 or detail != before or type(detail["startDate"]) is not type(before["startDate"]):
+        return False
+    _, subject, cw = bcs[0]
+    d = cw["detail"]
+    if subject != sm + "." + st or cw["account"] != "0123456789" or cw["region"] != region or cw["resources"] != [ex]:
+        return False
+    for k in ("version", "id", "detail-type", "source", "time"):
+        if k not in cw:
+            return False
+    if d["startDate"] != int(start * 1000):
+        return False
+    if stop is None or stop == 0:
+        return d["stopDate"] == stop
+    return d["stopDate"] == int(stop * 1000)
